@@ -179,6 +179,9 @@ func checkC02(rep *Report, pool *DriverPool, c *RCase) {
 		return
 	}
 	compareReaderModel(rep, pool, c, nil, stream, false, &o, true, -1, false)
+	if engineApplies("flate", c.Ctor, c.Src, nil) {
+		compareEngine(rep, pool, c, stream, c.Src, &o)
+	}
 	if o.Err != "EOF" || !bytes.Equal(o.Bytes, so) {
 		rep.Violate("differs-from-stdlib", "", fmt.Sprintf("compress/flate: %d bytes, EOF; fastgo: %d bytes, %s (first difference at %d)", len(so), len(o.Bytes), o.Err, firstDiff(o.Bytes, so)), c)
 	}
@@ -217,6 +220,9 @@ func checkC03(rep *Report, pool *DriverPool, c *RCase, knownValid bool) {
 	if o.Hang {
 		rep.Violate("hang", "", "Read did not finish", c)
 		return
+	}
+	if engineApplies("flate", c.Ctor, c.Src, nil) {
+		compareEngine(rep, pool, c, stream, c.Src, &o)
 	}
 	so, sk, _ := stdInflate(nil, stream)
 	rep.Count("std:" + sk)
@@ -284,6 +290,9 @@ func checkC04(rep *Report, pool *DriverPool, c *RCase) {
 	if o.Panic != "" || o.Hang || base.Panic != "" || base.Hang {
 		rep.Violate("panic-or-hang", "", fmt.Sprintf("panic=%q/%q hang=%v/%v", o.Panic, base.Panic, o.Hang, base.Hang), c)
 		return
+	}
+	if engineApplies("flate", c.Ctor, c.Src, nil) {
+		compareEngine(rep, pool, c, stream, c.Src, &o)
 	}
 	if c.Src.Term == "eof" || c.Src.Term == "eofdata" {
 		_, sk, _ := stdInflate(nil, stream)
@@ -435,6 +444,9 @@ func checkC15(rep *Report, pool *DriverPool, c *RCase) {
 	if o.Panic != "" || o.Hang {
 		rep.Violate("panic-or-hang", "", o.Panic, c)
 		return
+	}
+	if engineApplies(c.API, c.Ctor, c.Src, dict) {
+		compareEngine(rep, pool, c, stream, c.Src, &o)
 	}
 	if c.API == "flate" && dict == nil && (c.Src.Term == "err" || c.Src.Term == "errdata") && c.Src.After >= 0 && c.Src.After < len(stream) {
 		compareReaderModel(rep, pool, c, nil, stream[:c.Src.After], true, &o, true, -1, true)
